@@ -13,12 +13,30 @@ E        {"op": "identity"} | {"op": "observe"}                    pass-through 
          {"op": "setdefault" | "ifabsent", "name": N, "value": V}  response.headers.setdefault(N, V) / if N not in response.headers: set
          {"op": "cookie", "name": N, "value": V}                   response.set_cookie(N, V)
 inner    every application recipe of recipes.build_app, plus
-         {"app": "xraw", "status", "headers" [[name, value]], "chunks" [bytes | {"pat": n}], "returns": list|generator,
+         {"app": "xraw", "status", "headers" [[name, value]], "chunks" [bytes | {"pat": n}], "returns": (below), "start": eager|lazy,
           "omit": [optional ASGI keys left out: "body" (final message), "headers" (start, only without headers),
-          "more_body" (final message)], "header_items": tuple|list, "raises": None|"mid"}
+          "more_body" (final message)], "header_items": tuple|list, "raises": None|"mid"|"first"}
              a raw application; header names are handed over as spelled on WSGI and lower-cased on ASGI
+             "returns" (WSGI; what the application hands the server - PEP 3333 asks for `an iterable yielding zero or more
+             bytestrings`, nothing more): list | tuple | generator | iterator (an object of a class with __iter__ returning
+             itself and __next__) | iterator-close (the same with close()) | iterable (an object of a class whose __iter__
+             returns a fresh generator each time) | iterable-close | map (a map object) | chain | chain-tail (itertools.chain
+             objects) | callable-iter (iter(callable, sentinel)) | filewrapper (wsgiref.util.FileWrapper over a file-like
+             object; it ends at the first empty read, so empty chunks are not produced)
+             "start" (WSGI): eager (start_response is called before the application returns; default) | lazy (it is called in
+             the first iteration step, i.e. inside the first next() - PEP 3333: `this invocation may be performed by the
+             iterable's first iteration, so servers must not assume that start_response() has been called before they begin
+             iterating over the iterable`); lists and tuples are eager by nature
+             "raises": "mid" (in the middle of the body) | "first" (in the first iteration step, before a lazy start_response)
          {"app": "xview", "response": R | "raise_http": [status, headers|None, content|None] | "raise_exc": "ValueError"}
              a view (wrapped by request_response after the decorator layers)
+         {"app": "xwrap", "how": H, "inner": any inner application}
+             a layer of a foreign package (no baize code) between the baize layers and the inner application.  WSGI: it calls
+             the inner application and hands back its return value re-packaged as H = map | chain | iterator | iterator-close
+             | iterable-close | callable-iter, or H = deferred-call (an object whose __iter__ is a generator method that calls
+             the inner application only when iterated - the usual shape of class-based response objects and of
+             closing-iterator wrappers); close() is forwarded where the shape has one.  ASGI: a pure pass-through wrapper
+             (receive and send are forwarded through closures)
          {"app": "echo", "order": [...]}                            the echo view of recipes.py
 
 file_ops {"size": n, "ops": [...], "final": "op" | "empty-body"}     key of an xraw application (then "chunks" is []) or of an xview
@@ -277,21 +295,157 @@ def asgi_handler(index: int, e: Dict[str, Any], built: Built) -> Callable[[Any, 
 # raw applications
 
 
-def _xraw_wsgi(a: Dict[str, Any], built: Built) -> Any:
+RETURNS_EAGER_ONLY = ("list", "tuple")
+RETURNS_LAZY_CAPABLE = ("generator", "iterator", "iterator-close", "iterable", "iterable-close", "map", "chain", "chain-tail", "callable-iter", "filewrapper")
+RETURNS = RETURNS_EAGER_ONLY + RETURNS_LAZY_CAPABLE
+WRAP_HOWS = ("map", "chain", "iterator", "iterator-close", "iterable-close", "callable-iter", "deferred-call")
+_END = object()
+
+
+class _Iterator:
+    """An iterator object of a class of its own: __iter__ returns self, __next__ produces the chunks."""
+
+    def __init__(self, step: Callable[[], bytes]) -> None:
+        self._step = step
+
+    def __iter__(self) -> "_Iterator":
+        return self
+
+    def __next__(self) -> bytes:
+        return self._step()
+
+
+class _ClosingIterator(_Iterator):
+    def __init__(self, step: Callable[[], bytes], on_close: Callable[[], None]) -> None:
+        super().__init__(step)
+        self._on_close = on_close
+
+    def close(self) -> None:
+        self._on_close()
+
+
+class _Iterable:
+    """Not an iterator: every __iter__ call makes a fresh generator."""
+
+    def __init__(self, make: Callable[[], Any]) -> None:
+        self._make = make
+
+    def __iter__(self) -> Any:
+        return self._make()
+
+
+class _ClosingIterable(_Iterable):
+    def __init__(self, make: Callable[[], Any], on_close: Callable[[], None]) -> None:
+        super().__init__(make)
+        self._on_close = on_close
+
+    def close(self) -> None:
+        self._on_close()
+
+
+class _LazyFile:
+    """File-like object under wsgiref's FileWrapper: read(n) hands out at most n bytes of the chunks, b"" at the end."""
+
+    def __init__(self, source: Any, on_close: Callable[[], None]) -> None:
+        self._source = source
+        self._buf = b""
+        self._on_close = on_close
+
+    def read(self, n: int = -1) -> bytes:
+        while not self._buf:
+            try:
+                self._buf = next(self._source)
+            except StopIteration:
+                return b""
+        n = len(self._buf) if n is None or n < 0 else n
+        data, self._buf = self._buf[:n], self._buf[n:]
+        return data
+
+    def close(self) -> None:
+        self._on_close()
+
+
+def _closes(built: Built) -> List[Any]:
+    if not hasattr(built, "closes"):
+        built.closes = []  # type: ignore[attr-defined]
+    return built.closes  # type: ignore[attr-defined]
+
+
+def shape_iterable(how: str, make: Callable[[], Any], on_close: Callable[[], None]) -> Any:
+    """The chunks of the generator make() as an object of the shape `how` (see RETURNS)."""
+    import itertools
+    from wsgiref.util import FileWrapper
+
+    if how == "list":
+        return list(make())
+    if how == "tuple":
+        return tuple(make())
+    if how == "generator":
+        return make()
+    if how == "iterator":
+        return _Iterator(make().__next__)
+    if how == "iterator-close":
+        return _ClosingIterator(make().__next__, on_close)
+    if how == "iterable":
+        return _Iterable(make)
+    if how == "iterable-close":
+        return _ClosingIterable(make, on_close)
+    if how == "map":
+        return map(bytes, make())
+    if how == "chain":
+        return itertools.chain(make())
+    if how == "chain-tail":
+        return itertools.chain(make(), (b"",))
+    if how == "callable-iter":
+        g = make()
+        return iter(lambda: next(g, _END), _END)
+    if how == "filewrapper":
+        return FileWrapper(_LazyFile(make(), on_close), 65536)
+    raise HarnessError(f"returns {how!r}")
+
+
+def _note_return(built: Built, ret: Any, started: bool, outer: bool = True) -> Any:
+    """For the non-trivial rules and labels of the check: what kind of object went back to the caller (the innermost
+    baize layer, or the server) and whether start_response had been called by then."""
+    import inspect
+
+    if not outer:
+        return ret
+    built.returned = {"type": type(ret).__name__, "generator": inspect.isgenerator(ret), "sequence": isinstance(ret, (list, tuple)), "started": started,
+                      "closable": hasattr(ret, "close") and not inspect.isgenerator(ret)}  # type: ignore[attr-defined]
+    return ret
+
+
+def _xraw_wsgi(a: Dict[str, Any], built: Built, outer: bool = True) -> Any:
     status = a["status"]
     headers = [(str(k), str(v)) for k, v in a["headers"]]
     chunks = expand(a["chunks"])
     raises = a.get("raises")
+    returns = a.get("returns", "list")
+    lazy = a.get("start", "eager") == "lazy"
+    if returns not in RETURNS or (lazy and returns in RETURNS_EAGER_ONLY) or a.get("start", "eager") not in ("eager", "lazy"):
+        raise HarnessError(f"xraw returns {returns!r} start {a.get('start')!r}")
+    if returns == "filewrapper":
+        chunks = [c for c in chunks if c]
 
     def app(environ: Any, start_response: Any) -> Any:
         built.calls.append(("raw", None))
-        start_response(status, list(headers))
+        if not lazy:
+            start_response(status, list(headers))
         if a.get("file_ops"):
             return [data for _, _, data in file_ops_plan(a["file_ops"])]
-        if a.get("returns", "list") == "list" and raises is None:
-            return list(chunks)
+        if returns == "list" and raises is None:
+            return _note_return(built, list(chunks), True, outer)
+        if returns == "tuple" and raises is None:
+            return _note_return(built, tuple(chunks), True, outer)
+        begun = []
 
         def gen():
+            if raises == "first":
+                raise ProducerError("raw app failed in the first iteration step")
+            if lazy and not begun:
+                begun.append(1)
+                start_response(status, list(headers))
             for i, c in enumerate(chunks):
                 if raises == "mid" and i == max(1, len(chunks) // 2):
                     raise ProducerError("raw app failed mid-body")
@@ -299,7 +453,61 @@ def _xraw_wsgi(a: Dict[str, Any], built: Built) -> Any:
             if raises == "mid" and len(chunks) < 2:
                 raise ProducerError("raw app failed mid-body")
 
-        return gen()
+        closes = _closes(built)
+        return _note_return(built, shape_iterable("generator" if returns in RETURNS_EAGER_ONLY else returns, gen, lambda: closes.append("outer" if outer else "raw")), not lazy, outer)
+
+    return app
+
+
+def _xwrap_wsgi(a: Dict[str, Any], inner_app: Any, built: Built, outer: bool = True) -> Any:
+    how = a["how"]
+    if how not in WRAP_HOWS:
+        raise HarnessError(f"xwrap how {how!r}")
+
+    def app(environ: Any, start_response_: Any) -> Any:
+        closes = _closes(built)
+        started = []
+
+        def start_response(*args: Any, **kw: Any) -> Any:
+            started.append(1)
+            return start_response_(*args, **kw)
+
+        if how == "deferred-call":
+
+            class Deferred:
+                result: Any = None
+
+                def __iter__(self) -> Any:
+                    self.result = inner_app(environ, start_response)
+                    yield from self.result
+
+                def close(self) -> None:
+                    closes.append("outer" if outer else "wrap")
+                    if hasattr(self.result, "close"):
+                        self.result.close()
+
+            return _note_return(built, Deferred(), False, outer)
+        result = inner_app(environ, start_response)
+
+        def on_close() -> None:
+            closes.append("outer" if outer else "wrap")
+            if hasattr(result, "close"):
+                result.close()
+
+        return _note_return(built, shape_iterable(how, lambda: iter(result), on_close), bool(started), outer)
+
+    return app
+
+
+def _xwrap_asgi(a: Dict[str, Any], inner_app: Any, built: Built) -> Any:
+    async def app(scope: Any, receive: Any, send: Any) -> None:
+        async def receive_() -> Any:
+            return await receive()
+
+        async def send_(message: Any) -> None:
+            await send(message)
+
+        await inner_app(scope, receive_, send_)
 
     return app
 
@@ -314,6 +522,8 @@ def _xraw_asgi(a: Dict[str, Any], built: Built) -> Any:
 
     async def app(scope: Any, receive: Any, send: Any) -> None:
         built.calls.append(("raw", None))
+        if raises == "first":
+            raise ProducerError("raw app failed in the first iteration step")
         start: Dict[str, Any] = {"type": "http.response.start", "status": code, "headers": list(headers)}
         if "headers" in omit and not headers:
             del start["headers"]  # optional key, defaults to no headers
@@ -403,6 +613,20 @@ def _echo(a: Dict[str, Any], side: str, built: Built) -> Any:
 # ------------------------------------------------------------------------------------------
 
 
+def _build_plain(inner: Dict[str, Any], side: str, built: Built, outer: bool = True) -> Any:
+    """An inner application without decorator layers."""
+    M = W if side == "wsgi" else A
+    kind = inner["app"]
+    if kind == "xwrap":
+        inner_app = _build_plain(inner["inner"], side, built, False)
+        return _xwrap_wsgi(inner, inner_app, built, outer) if side == "wsgi" else _xwrap_asgi(inner, inner_app, built)
+    if kind == "xraw":
+        return _xraw_wsgi(inner, built, outer) if side == "wsgi" else _xraw_asgi(inner, built)
+    if kind in ("xview", "echo"):
+        return M.request_response(_xview(inner, side, built) if kind == "xview" else _echo(inner, side, built))
+    return recipes.build_app(inner, side, built).app
+
+
 def build(inner: Dict[str, Any], layers: List[Dict[str, Any]], side: str) -> Built:
     """Application `inner` wrapped in `layers` (innermost first)."""
     M = W if side == "wsgi" else A
@@ -424,10 +648,7 @@ def build(inner: Dict[str, Any], layers: List[Dict[str, Any]], side: str) -> Bui
     else:
         if deco:
             raise HarnessError("decorator layer on an application that is not a view")
-        if kind == "xraw":
-            app = _xraw_wsgi(inner, built) if side == "wsgi" else _xraw_asgi(inner, built)
-        else:
-            app = recipes.build_app(inner, side, built).app
+        app = _build_plain(inner, side, built)
     for i, ly in enumerate(layers):
         if ly["layer"] == "middleware":
             app = M.middleware(mk(i, ly["edit"], built))(app)
